@@ -1441,6 +1441,11 @@ class Inliner:
             same = sorted(h for h, oo in pbind.items() if oo == o)
             if g in same:
                 continue
+            if o == ('obj', modname_of(path), g) and \
+                    pbind.get(g) == ('obj', modname_of(p), g) and \
+                    self._module_logger(path, g) and \
+                    self._module_logger(p, g):
+                continue        # each module's own logger, same name
             if same:
                 if same[0] in own:
                     return None
@@ -1488,6 +1493,16 @@ class Inliner:
         self._foreign_cache[key] = out
         self._foreign_keep.append(helper)
         return out
+
+    def _module_logger(self, path, name):
+        for st in self.trees[path].body:
+            if isinstance(st, ast.Assign) and len(st.targets) == 1 and \
+                    isinstance(st.targets[0], ast.Name) and \
+                    st.targets[0].id == name:
+                return isinstance(st.value, ast.Call) and \
+                    ast.unparse(st.value.func) in ('logging.getLogger',
+                                                   'getLogger')
+        return False
 
     def _drop_imports(self, path, name, others):
         """The helper is gone: so are the `from m import helper` of the
@@ -1810,6 +1825,68 @@ class _Desugar(ast.NodeTransformer):
                     self.count += 1
                     i += 2
                     continue
+                # the choice made once, the chosen function called further
+                # down (in a loop, several times): each call statement
+                # makes the choice again -- when the condition reads only a
+                # stable path nothing in between writes
+                rest = stmts[i + 1:]
+                all_uses = [n for s2 in rest for n in ast.walk(s2)
+                            if isinstance(n, ast.Name) and n.id == var]
+                funcs = {id(n.func) for s2 in rest for n in ast.walk(s2)
+                         if isinstance(n, ast.Call)}
+                if all_uses and all(
+                        id(n) in funcs and isinstance(n.ctx, ast.Load)
+                        for n in all_uses) and _stable_path(st.test) and \
+                        not ({n.id for n in ast.walk(st.test)
+                              if isinstance(n, ast.Name)} &
+                             {n.id for s2 in rest for n in ast.walk(s2)
+                              if isinstance(n, ast.Name) and
+                              isinstance(n.ctx, (ast.Store, ast.Del))}):
+                    import copy as _c
+                    cond = st.test
+                    a_, b_ = st.body[0].value, st.orelse[0].value
+                    okk = [True]
+
+                    def block(lst):
+                        res = []
+                        for s2 in lst:
+                            own = [n for e in _own_exprs(s2)
+                                   for n in ast.walk(e)
+                                   if isinstance(n, ast.Name) and
+                                   n.id == var]
+                            for name in _BLOCKS:
+                                sub = getattr(s2, name, None)
+                                if isinstance(sub, list) and sub and \
+                                        isinstance(sub[0], ast.stmt):
+                                    setattr(s2, name, block(sub))
+                            for h in getattr(s2, 'handlers', []) or []:
+                                h.body = block(h.body)
+                            if not own:
+                                res.append(s2)
+                                continue
+                            if not isinstance(s2, (ast.Expr, ast.Assign,
+                                                   ast.Return)):
+                                okk[0] = False
+                                res.append(s2)
+                                continue
+                            arms = []
+                            for fn_ in (a_, b_):
+                                s3 = _c.deepcopy(s2)
+                                for n in ast.walk(s3):
+                                    if isinstance(n, ast.Call) and \
+                                            isinstance(n.func, ast.Name) \
+                                            and n.func.id == var:
+                                        n.func = _c.deepcopy(fn_)
+                                arms.append([s3])
+                            res.append(ast.copy_location(ast.If(
+                                test=_c.deepcopy(cond), body=arms[0],
+                                orelse=arms[1]), s2))
+                        return res
+                    trial = block(_c.deepcopy(rest))
+                    if okk[0]:
+                        out.extend(trial)
+                        self.count += 1
+                        return out
             out.append(st)
             i += 1
         return out
